@@ -63,6 +63,11 @@ func (g *gen) leaf() *E {
 type ctx struct {
 	min    int  // minimum level
 	nocond bool // "test without conditional": lambda allowed if its body is again no-cond
+	// used only by the required-parenthesis analysis of -mode unparen:
+	paren bool    // directly inside ( ): everything fits
+	name  string  // name of the position
+	op    *OpInfo // operand of this binary operator ...
+	side  string  // ... on this side ("left" / "right")
 }
 
 var (
@@ -74,6 +79,9 @@ var (
 func ctxPrec(n int) ctx { return ctx{min: n} }
 
 func fits(e *E, c ctx) bool {
+	if c.paren {
+		return true
+	}
 	if e.K == KTuple {
 		return c.min <= lvExpr && len(e.List) >= 2 && !e.TC
 	}
